@@ -26,7 +26,7 @@ CHECKS = {
                 text='Complete enumeration of 32 hook points x occurrence 1..3 x scenario programs x <=K requests with one injected fault; outcome by hook class (user code -> EXCEPTED(F) closed, future raises F, task returns; listener -> state equal to a twin run; pause/play hook -> reported to requester, process live and killable); faults during construction (on_create, the first announcement) are part of the model: the exception reaches the caller and no process exists.',
                 ref='5 C03', note=CORE_NOTE + ' Faults are raised after the base implementation of a hook.'),
     'C04': dict(engine='ProcessCore', technique='TLA+ ProcessCore/ProcessProps, TLC exhaustive (KillNoRaise, KillNotLost, KillReply, KillText, KillFromAnywhere = Drain(Kill(S)) in every live state) + replay',
-                text='Every placement of <=K kill/pause/play/resume/cancel requests and a re-entrant kill from listeners; kill futures and is_killing compared on the real process.',
+                text='Includes a process whose stepping task was cancelled at the pause gate (EnvTaskCancel): it can still be killed. Every placement of <=K kill/pause/play/resume/cancel requests and a re-entrant kill from listeners; kill futures and is_killing compared on the real process.',
                 ref='5 C04', note=CORE_NOTE),
     'C05': dict(engine='ProcessCore', technique='TLA+ ProcessCore/ProcessProps, TLC exhaustive (NoStepWhilePaused, PlayWins, StepsPrefix/Transparent against the reference run computed in TLA+) + replay',
                 text='Every placement of <=K pause/play/resume requests; executed step sequence, arguments, status at step entry, outputs and outcome equal the uninterrupted run.',
